@@ -1,6 +1,990 @@
-//! C10 — not built yet.
-use mcx::{Ctx, Value};
-pub fn run(_ctx: &Ctx, _replay: Option<&Value>) -> i32 {
-    eprintln!("C10: check not built yet");
-    2
+//! C10 — serialised code and data round-trip and recompile to the same program.
+//!
+//! Space (bounded-exhaustive enumeration, every element run through the real serialisers):
+//!   * every instruction spelling of the parser (every arm of `parse_op_token`) × boundary
+//!     immediates, each inside a program and inside a module; coverage is measured: the set of
+//!     leading opcode bytes of the serialised instruction nodes must equal the set of bytes the real
+//!     node decoder accepts as an opcode (probed byte by byte);
+//!   * containers: programs / modules with 0–3 procedures × locals {0,1,255,65535}, docs, imports
+//!     (used and unused), re-exports (plain and aliased), every nesting of {if-else, if, while,
+//!     repeat} to depth 3, empty else, repeat counts {1,2,65536,2^32-1};
+//!   * each of the above with and without serialised imports, with source locations written by
+//!     `write_source_locations` and reloaded by `load_source_locations`;
+//!   * `MaslLibrary` (small, small with locations, the whole stdlib), `ProgramInfo`, `Kernel`
+//!     (0, 1, 3, 255 procedures), `StackInputs` / `StackOutputs` (depth 0,1,16,17,40),
+//!     `ExecutionProof` (both layouts) from a tiny proof.
+//! Oracle: decode(encode(x)) == x (after reloading locations / re-attaching imports that were not
+//! serialised), encode(decode(encode(x))) == encode(x); compiling the round-tripped AST on a fresh
+//! assembler gives the same MAST root, kernel and code-block table and the same execution outcome
+//! on a fixed input as compiling the original (or fails with the same error).
+
+use crate::common::*;
+use assembly::{
+    ast::{AstSerdeOptions, ModuleAst, Node, ProgramAst},
+    Assembler, AssemblyContext, LibraryNamespace, LibraryPath, MaslLibrary, Module, Version,
+};
+use mcx::{guard, json, Ctx, Tier, Value};
+use miden::{ExecutionProof, ProvingOptions};
+use processor::{
+    AdviceExtractor, AdviceInjector, DefaultHost, ExecutionError, ExecutionOptions, Host, HostResponse,
+    MemAdviceProvider, ProcessState, Program,
+};
+use rayon::prelude::*;
+use std::collections::{BTreeMap, BTreeSet};
+use std::sync::Mutex;
+use vm_core::utils::{ByteReader, Deserializable, Serializable, SliceReader};
+use vm_core::{Felt, Kernel, ProgramInfo, StackInputs, StackOutputs};
+
+const KERNEL_SRC: &str = "export.foo push.1 drop end";
+const MODULE_PATH: &str = "test::subject";
+
+/// every first token `parse_op_token` has an arm for (assembly/src/ast/parsers/context.rs)
+const PARSER_ARMS: &[&str] = &[
+    "assert", "assertz", "assert_eq", "assert_eqw", "add", "sub", "mul", "div", "neg", "inv", "pow2", "exp",
+    "ilog2", "not", "and", "or", "xor", "eq", "neq", "lt", "lte", "gt", "gte", "is_odd", "eqw", "ext2add",
+    "ext2sub", "ext2mul", "ext2div", "ext2neg", "ext2inv", "u32test", "u32testw", "u32assert", "u32assert2",
+    "u32assertw", "u32cast", "u32split", "u32wrapping_add", "u32overflowing_add", "u32overflowing_add3",
+    "u32wrapping_add3", "u32wrapping_sub", "u32overflowing_sub", "u32wrapping_mul", "u32overflowing_mul",
+    "u32overflowing_madd", "u32wrapping_madd", "u32div", "u32mod", "u32divmod", "u32and", "u32or", "u32xor",
+    "u32not", "u32shr", "u32shl", "u32rotr", "u32rotl", "u32popcnt", "u32clz", "u32ctz", "u32clo", "u32cto",
+    "u32lt", "u32lte", "u32gt", "u32gte", "u32min", "u32max", "drop", "dropw", "padw", "dup", "dupw", "swap",
+    "swapw", "swapdw", "movup", "movupw", "movdn", "movdnw", "cswap", "cswapw", "cdrop", "cdropw", "push",
+    "sdepth", "locaddr", "caller", "clk", "mem_load", "loc_load", "mem_loadw", "loc_loadw", "mem_store",
+    "loc_store", "mem_storew", "loc_storew", "mem_stream", "adv_pipe", "adv_push", "adv_loadw", "adv", "hash",
+    "hmerge", "hperm", "mtree_get", "mtree_set", "mtree_merge", "mtree_verify", "fri_ext2fold4", "rcomb_base",
+    "exec", "call", "syscall", "dynexec", "dyncall", "procref", "breakpoint", "debug", "emit", "trace",
+];
+
+// HOST WITHOUT CONSOLE OUTPUT
+// ================================================================================================
+
+struct QuietHost(DefaultHost<MemAdviceProvider>);
+
+impl Host for QuietHost {
+    fn get_advice<S: ProcessState>(&mut self, process: &S, extractor: AdviceExtractor) -> Result<HostResponse, ExecutionError> {
+        self.0.get_advice(process, extractor)
+    }
+    fn set_advice<S: ProcessState>(&mut self, process: &S, injector: AdviceInjector) -> Result<HostResponse, ExecutionError> {
+        self.0.set_advice(process, injector)
+    }
+    fn on_event<S: ProcessState>(&mut self, _: &S, _: u32) -> Result<HostResponse, ExecutionError> {
+        Ok(HostResponse::None)
+    }
+    fn on_trace<S: ProcessState>(&mut self, _: &S, _: u32) -> Result<HostResponse, ExecutionError> {
+        Ok(HostResponse::None)
+    }
+    fn on_debug<S: ProcessState>(&mut self, _: &S, _: &vm_core::DebugOptions) -> Result<HostResponse, ExecutionError> {
+        Ok(HostResponse::None)
+    }
+}
+
+fn execute_fixed(program: &Program) -> String {
+    let stack: Vec<u64> = (1..=16).collect();
+    let r = guard::catch(|| {
+        processor::execute(program, stack_inputs(&stack), QuietHost(host(&[1, 2, 3, 4, 5, 6, 7, 8])), ExecutionOptions::default())
+    });
+    match r {
+        Err(p) => format!("panic: {}", guard::short_panic(&p)),
+        Ok(Err(e)) => format!("err: {e:?}"),
+        Ok(Ok(t)) => format!("ok: {:?} / {:?}", t.stack_outputs().stack(), t.stack_outputs().overflow_addrs()),
+    }
+}
+
+// THE SPACE
+// ================================================================================================
+
+const P_MINUS_1: u64 = 0xFFFF_FFFF_0000_0000;
+
+fn instruction_spellings() -> Vec<String> {
+    let mut v: Vec<String> = vec![];
+    let simple = [
+        "assert", "assertz", "assert_eq", "assert_eqw", "add", "sub", "mul", "div", "neg", "inv", "pow2", "exp",
+        "ilog2", "not", "and", "or", "xor", "eq", "neq", "lt", "lte", "gt", "gte", "is_odd", "eqw", "ext2add",
+        "ext2sub", "ext2mul", "ext2div", "ext2neg", "ext2inv", "u32test", "u32testw", "u32assert", "u32assert2",
+        "u32assertw", "u32cast", "u32split", "u32wrapping_add", "u32overflowing_add", "u32overflowing_add3",
+        "u32wrapping_add3", "u32wrapping_sub", "u32overflowing_sub", "u32wrapping_mul", "u32overflowing_mul",
+        "u32overflowing_madd", "u32wrapping_madd", "u32div", "u32mod", "u32divmod", "u32and", "u32or", "u32xor",
+        "u32not", "u32shr", "u32shl", "u32rotr", "u32rotl", "u32popcnt", "u32clz", "u32ctz", "u32clo", "u32cto",
+        "u32lt", "u32lte", "u32gt", "u32gte", "u32min", "u32max", "drop", "dropw", "padw", "dup", "dupw", "swap",
+        "swapw", "swapdw", "cswap", "cswapw", "cdrop", "cdropw", "sdepth", "caller", "clk", "mem_load",
+        "mem_loadw", "mem_store", "mem_storew", "mem_stream", "adv_pipe", "adv_loadw", "hash", "hmerge", "hperm",
+        "mtree_get", "mtree_set", "mtree_merge", "mtree_verify", "fri_ext2fold4", "rcomb_base", "dynexec",
+        "dyncall", "breakpoint",
+        // spellings that need a parameter are expected to be rejected by the parser (counted, not judged)
+        "movup", "push", "locaddr", "adv_push", "emit",
+    ];
+    v.extend(simple.iter().map(|s| s.to_string()));
+    for op in ["assert", "assertz", "assert_eq", "assert_eqw", "u32assert", "u32assert2", "u32assertw"] {
+        for n in [0u64, 1, 255, 65536, u32::MAX as u64, 1 << 32] {
+            v.push(format!("{op}.err={n}"));
+        }
+    }
+    let felt_imms = [0u64, 1, 2, 255, 256, 65535, 65536, u32::MAX as u64, 1 << 32, P_MINUS_1, P_MINUS_1 + 1];
+    for op in ["add", "sub", "mul", "div", "exp", "eq", "neq"] {
+        for n in felt_imms {
+            v.push(format!("{op}.{n}"));
+        }
+    }
+    for n in [0u32, 1, 8, 32, 63, 64, 65] {
+        v.push(format!("exp.u{n}"));
+    }
+    for op in [
+        "u32wrapping_add", "u32overflowing_add", "u32wrapping_sub", "u32overflowing_sub", "u32wrapping_mul",
+        "u32overflowing_mul", "u32div", "u32mod", "u32divmod",
+    ] {
+        for n in [0u64, 1, 2, 255, 256, 65535, 65536, 1 << 31, u32::MAX as u64, 1 << 32] {
+            v.push(format!("{op}.{n}"));
+        }
+    }
+    for op in ["u32shr", "u32shl", "u32rotr", "u32rotl"] {
+        for n in [0, 1, 15, 16, 31, 32, 255] {
+            v.push(format!("{op}.{n}"));
+        }
+    }
+    for n in 0..=16 {
+        v.push(format!("dup.{n}"));
+        v.push(format!("swap.{n}"));
+        v.push(format!("movup.{n}"));
+        v.push(format!("movdn.{n}"));
+    }
+    for n in 0..=4 {
+        v.push(format!("dupw.{n}"));
+        v.push(format!("swapw.{n}"));
+        v.push(format!("movupw.{n}"));
+        v.push(format!("movdnw.{n}"));
+    }
+    // push: every size class, single values, lists of 2, 4, 5 and 16, hex forms
+    let classes: [(&str, u64); 4] = [("u8", 255), ("u16", 65535), ("u32", u32::MAX as u64), ("felt", P_MINUS_1)];
+    for n in [0u64, 1, 255, 256, 65535, 65536, u32::MAX as u64, 1 << 32, P_MINUS_1, P_MINUS_1 + 1] {
+        v.push(format!("push.{n}"));
+    }
+    for (_, max) in classes {
+        for len in [2usize, 3, 4, 5, 15, 16, 17] {
+            let vals: Vec<String> = (0..len).map(|i| if i == len / 2 { max.to_string() } else { (i as u64 % 7).to_string() }).collect();
+            v.push(format!("push.{}", vals.join(".")));
+        }
+    }
+    for h in ["0x00", "0xff", "0x0100", "0xffffffff", "0x0100000000", "0xffffffff00000000", "0xffffffff00000001"] {
+        v.push(format!("push.{h}"));
+    }
+    v.push("push.0x01.0x0200.3".into());
+    v.push(format!("push.0x{}", "0100000000000000".repeat(4)));
+    v.push(format!("push.0x{}", "00000000ffffffff".repeat(4)));
+    for op in ["locaddr", "loc_load", "loc_loadw", "loc_store", "loc_storew"] {
+        for n in [0u32, 1, 3, 4, 255, 256, 65535, 65536] {
+            v.push(format!("{op}.{n}"));
+        }
+    }
+    for op in ["mem_load", "mem_loadw", "mem_store", "mem_storew"] {
+        for n in [0u64, 1, 255, 65536, u32::MAX as u64, 1 << 32] {
+            v.push(format!("{op}.{n}"));
+        }
+    }
+    for n in [0, 1, 2, 15, 16, 17] {
+        v.push(format!("adv_push.{n}"));
+    }
+    for inj in [
+        "push_u64div", "push_ext2intt", "push_smtget", "push_smtset", "push_smtpeek", "push_mapval", "push_mapval.0",
+        "push_mapval.1", "push_mapval.12", "push_mapval.13", "push_mapvaln", "push_mapvaln.0", "push_mapvaln.1",
+        "push_mapvaln.12", "push_mtnode", "insert_mem", "insert_hdword", "insert_hdword.0", "insert_hdword.1",
+        "insert_hdword.255", "insert_hperm", "push_sig.rpo_falcon512",
+    ] {
+        v.push(format!("adv.{inj}"));
+    }
+    let root = "0x".to_string() + &"c9b007301fbe49f9c96698ea31f251b61d51674c892fbb2d8d349280bbd4a273"[..64];
+    for t in [
+        "exec.foo", "exec.u64::wrapping_add", "call.foo", "call.u64::wrapping_add", "syscall.foo", "procref.foo",
+        "procref.u64::wrapping_add",
+    ] {
+        v.push(t.to_string());
+    }
+    v.push(format!("call.{root}"));
+    v.push(format!("call.0x{}", "00".repeat(32)));
+    for d in [
+        "stack", "stack.1", "stack.65535", "mem", "mem.1", "mem.4294967295", "mem.0.0", "mem.1.4294967295", "local",
+        "local.0", "local.65535", "local.0.65535", "local.2.3",
+    ] {
+        v.push(format!("debug.{d}"));
+    }
+    for op in ["emit", "trace"] {
+        for n in [0u64, 1, 65536, u32::MAX as u64] {
+            v.push(format!("{op}.{n}"));
+        }
+    }
+    v
+}
+
+fn instr_program(instr: &str) -> String {
+    format!("use.std::math::u64\nproc.foo\n    push.7 drop\nend\nproc.bar.4\n    {instr}\nend\nbegin\n    exec.bar\nend\n")
+}
+
+fn instr_module(instr: &str) -> String {
+    format!("#! module around `{instr}`\n\nuse.std::math::u64\n\n#! helper\nexport.foo\n    push.7 drop\nend\n\n#! subject\n#! second doc line\nexport.bar.4\n    {instr}\nend\n")
+}
+
+/// all nestings of {if-else, if, while, repeat} of depth 1..=3 around `push.5 drop`
+fn nested_bodies(repeat: u64) -> Vec<(String, String)> {
+    fn wrap(kind: usize, inner: &str, repeat: u64) -> String {
+        match kind {
+            0 => format!("push.1 if.true {inner} else push.3 drop end"),
+            1 => format!("push.1 if.true {inner} end"),
+            2 => format!("push.1 while.true {inner} push.0 end"),
+            _ => format!("repeat.{repeat} {inner} end"),
+        }
+    }
+    let names = ["ifelse", "if", "while", "repeat"];
+    let mut out = vec![];
+    for depth in 1..=3usize {
+        for code in 0..4usize.pow(depth as u32) {
+            let kinds: Vec<usize> = (0..depth).map(|i| (code / 4usize.pow(i as u32)) % 4).collect();
+            let mut body = "push.5 drop".to_string();
+            for &k in kinds.iter().rev() {
+                body = wrap(k, &body, repeat);
+            }
+            out.push((kinds.iter().map(|&k| names[k]).collect::<Vec<_>>().join(">"), body));
+        }
+    }
+    out
+}
+
+/// (name, source, compile?) of the container programs
+fn container_programs() -> Vec<(String, String, bool)> {
+    let mut v = vec![];
+    for (name, body) in nested_bodies(2) {
+        v.push((format!("nest:{name}"), format!("begin {body} end"), true));
+    }
+    for r in [1u64, 2, 65536, u32::MAX as u64] {
+        v.push((format!("repeat.{r}"), format!("begin repeat.{r} push.1 drop end end"), r <= 65536));
+        v.push((format!("repeat.{r}>if"), format!("begin repeat.{r} push.1 if.true push.2 drop end end end"), r <= 2));
+    }
+    v.push(("empty-else".into(), "begin push.1 if.true push.2 drop else end end".into(), true));
+    v.push(("empty-if-with-else".into(), "begin push.0 if.true else push.2 drop end end".into(), true));
+    v.push(("empty-while".into(), "begin push.0 while.true end end".into(), true));
+    v.push(("empty-body".into(), "begin end".into(), true));
+    // 0..3 procedures × locals
+    for k in 0..=3usize {
+        for locals in [0u32, 1, 255, 65535] {
+            let mut s = String::new();
+            for i in 0..k {
+                let l = if locals == 0 { String::new() } else { format!(".{locals}") };
+                let body = if locals == 0 { "push.1 drop".to_string() } else { format!("push.9 loc_store.{} loc_load.0 drop", locals - 1) };
+                let call = if i == 0 { String::new() } else { format!(" exec.p{}", i - 1) };
+                s += &format!("proc.p{i}{l}\n    {body}{call}\nend\n");
+            }
+            let calls: String = (0..k).map(|i| format!(" exec.p{i} call.p{i}")).collect();
+            s += &format!("begin\n    push.4{calls} drop\nend\n");
+            v.push((format!("procs:{k}:locals:{locals}"), s, true));
+        }
+    }
+    // imports: none / used / unused / several
+    v.push(("imports:used".into(), "use.std::math::u64\nbegin exec.u64::wrapping_add end".into(), true));
+    v.push(("imports:unused".into(), "use.std::math::u64\nuse.std::sys\nbegin push.1 drop end".into(), true));
+    v.push((
+        "imports:several".into(),
+        "use.std::math::u64\nuse.std::sys\nuse.std::mem\nproc.q exec.u64::wrapping_mul end\nbegin exec.q call.u64::wrapping_add exec.sys::truncate_stack procref.u64::overflowing_add dropw end".into(),
+        true,
+    ));
+    v.push(("constants".into(), "const.A=7\nconst.B=A*2+1\nbegin push.A push.B add emit.A mem_store.B end".into(), true));
+    v
+}
+
+fn container_modules() -> Vec<(String, String)> {
+    let mut v = vec![];
+    for (name, body) in nested_bodies(3) {
+        v.push((format!("nest:{name}"), format!("export.f\n    {body}\nend\n")));
+    }
+    for k in 0..=3usize {
+        for locals in [0u32, 1, 255, 65535] {
+            for docs in [false, true] {
+                let mut s = String::new();
+                if docs {
+                    s += "#! module documentation\n#! with two lines and a non-ASCII letter: é\n\n";
+                }
+                for i in 0..k {
+                    let l = if locals == 0 { String::new() } else { format!(".{locals}") };
+                    let body = if locals == 0 { "push.1 drop".to_string() } else { format!("push.9 loc_store.{} loc_load.0 drop", locals - 1) };
+                    let call = if i == 0 { String::new() } else { format!(" exec.p{}", i - 1) };
+                    let kw = if i % 2 == 0 { "export" } else { "proc" };
+                    if docs && i % 2 == 0 {
+                        s += &format!("#! documentation of p{i}\n#!\n#! more\n");
+                    }
+                    s += &format!("{kw}.p{i}{l}\n    {body}{call}\nend\n\n");
+                }
+                v.push((format!("procs:{k}:locals:{locals}:docs:{docs}"), s));
+            }
+        }
+    }
+    v.push(("reexport".into(), "use.std::math::u64\nexport.u64::wrapping_add\n".into()));
+    v.push(("reexport:alias".into(), "use.std::math::u64\n#! aliased\nexport.u64::wrapping_add->plus\n".into()));
+    v.push((
+        "reexport+procs+imports".into(),
+        "#! docs\n\nuse.std::math::u64\nuse.std::math::u256\nuse.std::sys\n\n#! re-exported\nexport.u64::wrapping_mul\n\nexport.u256::add_unsafe->add256\n\n#! local\nexport.l.2\n    exec.u64::wrapping_add call.u64::wrapping_sub procref.u64::overflowing_mul dropw\nend\n\nproc.internal\n    exec.l\nend\n".into(),
+    ));
+    v.push(("imports:unused".into(), "use.std::math::u64\nexport.f push.1 drop end\n".into()));
+    v
+}
+
+// ORACLES
+// ================================================================================================
+
+struct Tag<'a> {
+    family: &'a str,
+    instr: &'a str,
+    name: &'a str,
+}
+
+fn instr_name(instr: &str) -> String {
+    instr.split('.').next().unwrap_or("").to_string()
+}
+
+fn fail(ctx: &Ctx, tag: &Tag, container: &str, stage: &str, detail: String, case: &Value) {
+    // "stage(mode)" → stage and serialisation mode as separate signature keys
+    let (stage_name, mode) = match stage.split_once('(') {
+        Some((s, m)) => (s, m.trim_end_matches(')')),
+        None => (stage, ""),
+    };
+    let mut sig = json!({"kind": "roundtrip", "container": container, "stage": stage_name, "family": tag.family});
+    if !mode.is_empty() {
+        sig["mode"] = json!(mode);
+    }
+    if !tag.instr.is_empty() {
+        sig["instr"] = json!(instr_name(tag.instr));
+    }
+    let what = if tag.instr.is_empty() { tag.name.to_string() } else { format!("`{}`", tag.instr) };
+    if ctx.replaying {
+        println!("observed: {container} {what}: {stage}: {detail}");
+    }
+    ctx.fail(sig, format!("{container} {what}: {stage}: {detail}"), case.clone());
+}
+
+fn fresh_assembler() -> Assembler {
+    assembler_with_kernel(KERNEL_SRC)
+}
+
+enum Compiled {
+    Ok { hash: String, kernel: Kernel, cb_table: String, exec: String },
+    Err(String),
+    Panic(String),
+}
+
+impl Compiled {
+    fn class(&self) -> &'static str {
+        match self {
+            Compiled::Ok { .. } => "compiled",
+            Compiled::Err(_) => "compile_error",
+            Compiled::Panic(_) => "compile_panic",
+        }
+    }
+}
+
+fn compile_program(ast: &ProgramAst) -> Compiled {
+    let asm = fresh_assembler();
+    match guard::catch(|| asm.compile_ast(ast)) {
+        Err(p) => Compiled::Panic(guard::short_panic(&p)),
+        Ok(Err(e)) => Compiled::Err(e.to_string()),
+        Ok(Ok(p)) => Compiled::Ok {
+            hash: format!("{:?}", p.hash()),
+            kernel: p.kernel().clone(),
+            cb_table: format!("{:?}", p.cb_table()),
+            exec: execute_fixed(&p),
+        },
+    }
+}
+
+fn compare_compiled(a: &Compiled, b: &Compiled) -> Option<(&'static str, String)> {
+    match (a, b) {
+        (Compiled::Ok { hash: h1, kernel: k1, cb_table: c1, exec: e1 }, Compiled::Ok { hash: h2, kernel: k2, cb_table: c2, exec: e2 }) => {
+            if h1 != h2 {
+                Some(("mast_root_differs", format!("original {h1} round-tripped {h2}")))
+            } else if k1 != k2 {
+                Some(("kernel_differs", format!("original {k1:?} round-tripped {k2:?}")))
+            } else if c1 != c2 {
+                Some(("cb_table_differs", "code-block tables of the two programs differ".into()))
+            } else if e1 != e2 {
+                Some(("execution_differs", format!("original {e1} round-tripped {e2}")))
+            } else {
+                None
+            }
+        }
+        (Compiled::Err(x), Compiled::Err(y)) | (Compiled::Panic(x), Compiled::Panic(y)) => {
+            if x == y {
+                None
+            } else {
+                Some(("compile_error_differs", format!("original '{x}' round-tripped '{y}'")))
+            }
+        }
+        _ => Some(("compile_outcome_differs", format!("original {} round-tripped {}", a.class(), b.class()))),
+    }
+}
+
+struct Stats {
+    classes: Mutex<BTreeMap<String, u64>>,
+    opcodes: Mutex<BTreeSet<u8>>,
+    arms: Mutex<BTreeSet<String>>,
+    encodings: Mutex<BTreeSet<Vec<u8>>>,
+    nested_locations_lost: Mutex<u64>,
+}
+
+impl Stats {
+    fn class(&self, c: &str) {
+        *self.classes.lock().unwrap().entry(c.to_string()).or_insert(0) += 1;
+    }
+}
+
+/// records the leading opcode byte of every instruction node (recursively) and the number of
+/// nested bodies
+fn walk_nodes(nodes: &[Node], ops: &mut BTreeSet<u8>, nested_bodies: &mut u64) {
+    for n in nodes {
+        let bytes = Serializable::to_bytes(n);
+        if let Some(b) = bytes.first() {
+            ops.insert(*b);
+        }
+        match n {
+            Node::Instruction(_) => {}
+            Node::IfElse { true_case, false_case } => {
+                *nested_bodies += 2;
+                walk_nodes(true_case.nodes(), ops, nested_bodies);
+                walk_nodes(false_case.nodes(), ops, nested_bodies);
+            }
+            Node::Repeat { body, .. } | Node::While { body } => {
+                *nested_bodies += 1;
+                walk_nodes(body.nodes(), ops, nested_bodies);
+            }
+        }
+    }
+}
+
+fn check_program(ctx: &Ctx, st: &Stats, tag: &Tag, src: &str, compile: bool) {
+    let case = json!({"kind": "program", "family": tag.family, "instr": tag.instr, "name": tag.name, "src": src, "compile": compile});
+    let ast = match guard::catch(|| ProgramAst::parse(src)) {
+        Ok(Ok(a)) => a,
+        Ok(Err(_)) => return st.class("program:not_parsable"),
+        Err(_) => return st.class("program:parser_panic"),
+    };
+    if !tag.instr.is_empty() {
+        st.arms.lock().unwrap().insert(instr_name(tag.instr));
+    }
+    {
+        let (mut ops, mut nested) = (BTreeSet::new(), 0u64);
+        walk_nodes(ast.body().nodes(), &mut ops, &mut nested);
+        for p in ast.procedures() {
+            walk_nodes(p.body.nodes(), &mut ops, &mut nested);
+        }
+        st.opcodes.lock().unwrap().extend(ops);
+        *st.nested_locations_lost.lock().unwrap() += nested;
+    }
+    let original = if compile { Some(compile_program(&ast)) } else { None };
+    if let Some(c) = &original {
+        st.class(&format!("program:original:{}", c.class()));
+    }
+    for with_imports in [true, false] {
+        let opt = AstSerdeOptions::new(with_imports);
+        let stage = |s: &str| format!("{s}({})", if with_imports { "with imports" } else { "without imports" });
+        let bytes = match guard::catch(|| ast.to_bytes(opt)) {
+            Ok(b) => b,
+            Err(p) => return fail(ctx, tag, "program", &stage("encode_panic"), guard::short_panic(&p), &case),
+        };
+        if with_imports {
+            st.encodings.lock().unwrap().insert(bytes.clone());
+        }
+        let dec = match guard::catch(|| ProgramAst::from_bytes(&bytes)) {
+            Ok(Ok(d)) => d,
+            Ok(Err(e)) => return fail(ctx, tag, "program", &stage("decode_err"), format!("{e:?} ({} bytes)", bytes.len()), &case),
+            Err(p) => return fail(ctx, tag, "program", &stage("decode_panic"), guard::short_panic(&p), &case),
+        };
+        // byte stability and second generation
+        let bytes2 = dec.to_bytes(opt);
+        if bytes2 != bytes {
+            return fail(ctx, tag, "program", &stage("reencode_differs"), format!("{} vs {} bytes", bytes.len(), bytes2.len()), &case);
+        }
+        // reload locations, re-attach imports that were not serialised, compare
+        let mut locs = Vec::new();
+        ast.write_source_locations(&mut locs);
+        let mut full = dec.clone();
+        let mut rd = SliceReader::new(&locs);
+        if let Err(e) = full.load_source_locations(&mut rd) {
+            return fail(ctx, tag, "program", &stage("load_locations_err"), format!("{e:?}"), &case);
+        }
+        if rd.has_more_bytes() {
+            return fail(ctx, tag, "program", &stage("locations_not_consumed"), "bytes left after load_source_locations".into(), &case);
+        }
+        if !with_imports {
+            let mut stripped = ast.clone();
+            stripped.clear_imports();
+            if stripped != full {
+                return fail(ctx, tag, "program", &stage("not_equal"), "decode(encode(x)) != x with imports cleared".into(), &case);
+            }
+            full = full.with_import_info(ast.import_info().clone());
+        }
+        if full != ast {
+            return fail(ctx, tag, "program", &stage("not_equal"), "decode(encode(x)) + locations != x".into(), &case);
+        }
+        let same_locs = ast.source_locations().eq(full.source_locations())
+            && ast.procedures().iter().zip(full.procedures()).all(|(a, b)| a.source_locations().eq(b.source_locations()));
+        if !same_locs {
+            return fail(ctx, tag, "program", &stage("locations_differ"), "reloaded source locations differ".into(), &case);
+        }
+        if let Some(orig) = &original {
+            let rt = compile_program(&full);
+            if let Some((what, detail)) = compare_compiled(orig, &rt) {
+                return fail(ctx, tag, "program", &stage(what), detail, &case);
+            }
+            if !with_imports {
+                // informational: the AST as decoded, without its import table
+                st.class(&format!("program:compile_without_import_table:{}", compile_program(&dec).class()));
+            }
+        }
+        st.class("program:roundtrip_ok");
+    }
+}
+
+fn compile_module(ast: &ModuleAst) -> Result<String, String> {
+    let asm = fresh_assembler();
+    let path = LibraryPath::new(MODULE_PATH).expect("path");
+    match guard::catch(|| asm.compile_module(ast, Some(&path), &mut AssemblyContext::for_module(false))) {
+        Err(p) => Err(format!("panic: {}", guard::short_panic(&p))),
+        Ok(Err(e)) => Err(format!("error: {e}")),
+        Ok(Ok(roots)) => Ok(format!("{roots:?}")),
+    }
+}
+
+fn check_module(ctx: &Ctx, st: &Stats, tag: &Tag, src: &str) {
+    let case = json!({"kind": "module", "family": tag.family, "instr": tag.instr, "name": tag.name, "src": src});
+    let ast = match guard::catch(|| ModuleAst::parse(src)) {
+        Ok(Ok(a)) => a,
+        Ok(Err(_)) => return st.class("module:not_parsable"),
+        Err(_) => return st.class("module:parser_panic"),
+    };
+    {
+        let (mut ops, mut nested) = (BTreeSet::new(), 0u64);
+        for p in ast.procs() {
+            walk_nodes(p.body.nodes(), &mut ops, &mut nested);
+        }
+        st.opcodes.lock().unwrap().extend(ops);
+        *st.nested_locations_lost.lock().unwrap() += nested;
+    }
+    let original = compile_module(&ast);
+    st.class(&format!("module:original:{}", if original.is_ok() { "compiled" } else { "compile_error" }));
+    for with_imports in [true, false] {
+        let opt = AstSerdeOptions::new(with_imports);
+        let stage = |s: &str| format!("{s}({})", if with_imports { "with imports" } else { "without imports" });
+        let bytes = match guard::catch(|| ast.to_bytes(opt)) {
+            Ok(b) => b,
+            Err(p) => return fail(ctx, tag, "module", &stage("encode_panic"), guard::short_panic(&p), &case),
+        };
+        if with_imports {
+            st.encodings.lock().unwrap().insert(bytes.clone());
+        }
+        let dec = match guard::catch(|| ModuleAst::from_bytes(&bytes)) {
+            Ok(Ok(d)) => d,
+            Ok(Err(e)) => return fail(ctx, tag, "module", &stage("decode_err"), format!("{e:?} ({} bytes)", bytes.len()), &case),
+            Err(p) => return fail(ctx, tag, "module", &stage("decode_panic"), guard::short_panic(&p), &case),
+        };
+        let bytes2 = dec.to_bytes(opt);
+        if bytes2 != bytes {
+            return fail(ctx, tag, "module", &stage("reencode_differs"), format!("{} vs {} bytes", bytes.len(), bytes2.len()), &case);
+        }
+        // without locations: equal to the original with locations cleared
+        let mut cleared = ast.clone();
+        cleared.clear_locations();
+        if !with_imports {
+            cleared.clear_imports();
+        }
+        if cleared != dec {
+            return fail(ctx, tag, "module", &stage("not_equal"), "decode(encode(x)) != x with locations cleared".into(), &case);
+        }
+        let mut locs = Vec::new();
+        ast.write_source_locations(&mut locs);
+        let mut full = dec.clone();
+        let mut rd = SliceReader::new(&locs);
+        if let Err(e) = full.load_source_locations(&mut rd) {
+            return fail(ctx, tag, "module", &stage("load_locations_err"), format!("{e:?}"), &case);
+        }
+        if rd.has_more_bytes() {
+            return fail(ctx, tag, "module", &stage("locations_not_consumed"), "bytes left after load_source_locations".into(), &case);
+        }
+        if !with_imports {
+            full = full.with_import_info(ast.import_info().clone());
+        }
+        if full != ast {
+            return fail(ctx, tag, "module", &stage("not_equal"), "decode(encode(x)) + locations != x".into(), &case);
+        }
+        let same_locs = ast.procs().iter().zip(full.procs()).all(|(a, b)| a.source_locations().eq(b.source_locations()));
+        if !same_locs {
+            return fail(ctx, tag, "module", &stage("locations_differ"), "reloaded source locations differ".into(), &case);
+        }
+        let rt = compile_module(&full);
+        if rt != original {
+            return fail(ctx, tag, "module", &stage("compile_differs"), format!("original {original:?} round-tripped {rt:?}"), &case);
+        }
+        st.class("module:roundtrip_ok");
+    }
+}
+
+// LIBRARIES AND DATA
+// ================================================================================================
+
+fn small_library(with_locations: bool) -> MaslLibrary {
+    let mods = container_modules();
+    let get = |name: &str| ModuleAst::parse(&mods.iter().find(|m| m.0 == name).expect("module").1).expect("module must parse");
+    MaslLibrary::new(
+        LibraryNamespace::new("mylib").expect("namespace"),
+        Version { major: 0, minor: 7, patch: 65535 },
+        with_locations,
+        vec![
+            Module::new(LibraryPath::new("mylib::a").expect("path"), get("procs:3:locals:1:docs:true")),
+            Module::new(LibraryPath::new("mylib::deep::b").expect("path"), get("reexport+procs+imports")),
+            Module::new(LibraryPath::new("mylib::deep::c").expect("path"), get("nest:ifelse>while>repeat")),
+        ],
+        vec![LibraryNamespace::new("std").expect("namespace")],
+    )
+    .expect("library")
+}
+
+fn library_by_name(which: &str) -> MaslLibrary {
+    match which {
+        "small" => small_library(false),
+        "small+locations" => small_library(true),
+        "stdlib" => stdlib::StdLibrary::default().into(),
+        _ => panic!("unknown library {which}"),
+    }
+}
+
+const LIB_USER: &str = "use.std::math::u64\nuse.std::sys\nuse.std::crypto::hashes::blake3\nuse.std::collections::smt\nbegin exec.u64::wrapping_mul call.u64::wrapping_add exec.blake3::hash_2to1 procref.smt::get dropw exec.sys::truncate_stack end";
+const SMALL_LIB_USER: &str = "use.mylib::a\nuse.mylib::deep::b\nuse.mylib::deep::c\nbegin exec.a::p0 exec.a::p2 exec.b::l exec.b::add256 call.b::wrapping_mul exec.c::f end";
+
+fn library_program_hash(lib: &MaslLibrary, which: &str) -> String {
+    let r = guard::catch(|| {
+        let asm = if which == "stdlib" {
+            Assembler::default().with_library(lib)
+        } else {
+            Assembler::default().with_library(&stdlib::StdLibrary::default()).and_then(|a| a.with_library(lib))
+        };
+        asm.and_then(|a| a.compile(if which == "stdlib" { LIB_USER } else { SMALL_LIB_USER }))
+            .map(|p| format!("{:?} / {}", p.hash(), execute_fixed(&p)))
+            .map_err(|e| e.to_string())
+    });
+    format!("{r:?}")
+}
+
+fn check_library(ctx: &Ctx, st: &Stats, which: &str) {
+    let tag = Tag { family: "library", instr: "", name: which };
+    let case = json!({"kind": "library", "which": which});
+    let lib = library_by_name(which);
+    let bytes = Serializable::to_bytes(&lib);
+    let dec = match guard::catch(|| MaslLibrary::read_from_bytes(&bytes)) {
+        Ok(Ok(d)) => d,
+        Ok(Err(e)) => return fail(ctx, &tag, "library", "decode_err", format!("{e:?}"), &case),
+        Err(p) => return fail(ctx, &tag, "library", "decode_panic", guard::short_panic(&p), &case),
+    };
+    // a library written without source locations comes back without them
+    let mut expected = lib.clone();
+    if which == "small" {
+        expected.clear_locations();
+    }
+    if dec != expected {
+        return fail(ctx, &tag, "library", "not_equal", "decode(encode(lib)) != lib".into(), &case);
+    }
+    if Serializable::to_bytes(&dec) != bytes {
+        return fail(ctx, &tag, "library", "reencode_differs", "encode(decode(encode(lib))) != encode(lib)".into(), &case);
+    }
+    let (h1, h2) = (library_program_hash(&lib, which), library_program_hash(&dec, which));
+    if h1 != h2 || !h1.starts_with("Ok(Ok(") {
+        return fail(ctx, &tag, "library", "compile_differs", format!("program using the library: original {h1} round-tripped {h2}"), &case);
+    }
+    st.encodings.lock().unwrap().insert(bytes);
+    st.class("library:roundtrip_ok");
+}
+
+fn digests(n: usize) -> Vec<vm_core::crypto::hash::RpoDigest> {
+    (0..n as u64)
+        .map(|i| {
+            vm_core::crypto::hash::RpoDigest::new([
+                Felt::new(i * 7 + 1),
+                Felt::new(P_MINUS_1 - i),
+                Felt::new(i << 32),
+                Felt::new(0x0123_4567_89ab_cdef ^ i),
+            ])
+        })
+        .collect()
+}
+
+fn stack_values(n: usize) -> Vec<u64> {
+    (0..n as u64).map(|i| match i % 4 { 0 => P_MINUS_1 - i, 1 => i, 2 => u32::MAX as u64 + i, _ => 0 }).collect()
+}
+
+fn data_roundtrip<T: Serializable + Deserializable>(
+    ctx: &Ctx,
+    st: &Stats,
+    ty: &str,
+    param: u64,
+    value: &T,
+    equal: impl Fn(&T, &T) -> bool,
+) {
+    let name = format!("{ty}:{param}");
+    let tag = Tag { family: "data", instr: "", name: &name };
+    let case = json!({"kind": "data", "type": ty, "param": param});
+    let bytes = Serializable::to_bytes(value);
+    let dec = match guard::catch(|| T::read_from_bytes(&bytes)) {
+        Ok(Ok(d)) => d,
+        Ok(Err(e)) => return fail(ctx, &tag, ty, "decode_err", format!("{e:?}"), &case),
+        Err(p) => return fail(ctx, &tag, ty, "decode_panic", guard::short_panic(&p), &case),
+    };
+    if !equal(value, &dec) {
+        return fail(ctx, &tag, ty, "not_equal", "decode(encode(x)) != x".into(), &case);
+    }
+    if Serializable::to_bytes(&dec) != bytes {
+        return fail(ctx, &tag, ty, "reencode_differs", "encode(decode(encode(x))) != encode(x)".into(), &case);
+    }
+    st.encodings.lock().unwrap().insert(bytes);
+    st.class(&format!("{ty}:roundtrip_ok"));
+}
+
+fn check_data(ctx: &Ctx, st: &Stats, ty: &str, param: u64) {
+    let n = param as usize;
+    match ty {
+        "Kernel" => data_roundtrip(ctx, st, ty, param, &Kernel::new(&digests(n)).expect("kernel"), |a, b| a == b),
+        "ProgramInfo" => {
+            let d = digests(n + 1);
+            let info = ProgramInfo::new(d[n], Kernel::new(&d[..n]).expect("kernel"));
+            data_roundtrip(ctx, st, ty, param, &info, |a, b| a == b)
+        }
+        "StackInputs" => {
+            let si = StackInputs::try_from_values(stack_values(n)).expect("stack inputs");
+            data_roundtrip(ctx, st, ty, param, &si, |a, b| a.values() == b.values())
+        }
+        "StackOutputs" => {
+            let ov: Vec<u64> = if n > 16 { (0..(n + 1 - 16) as u64).map(|i| i * 3 + 1).collect() } else { vec![] };
+            let so = StackOutputs::new(stack_values(n), ov).expect("stack outputs");
+            data_roundtrip(ctx, st, ty, param, &so, |a, b| a == b)
+        }
+        _ => panic!("unknown data type {ty}"),
+    }
+}
+
+const PROOF_PROGRAMS: [(&str, &str); 2] = [
+    ("add", "begin push.3 push.5 add swap drop end"),
+    ("kernel+overflow", "proc.f.1 loc_load.0 loc_store.0 end begin syscall.foo call.f repeat.20 dup end push.1 if.true hperm else drop end end"),
+];
+
+fn check_proof(ctx: &Ctx, st: &Stats, which: usize) {
+    let (name, src) = PROOF_PROGRAMS[which];
+    let pname = format!("proof:{name}");
+    let tag = Tag { family: "proof", instr: "", name: &pname };
+    let case = json!({"kind": "proof", "which": which});
+    let program = fresh_assembler().compile(src).expect("proof program must assemble");
+    let inputs = stack_inputs(&[7, 8, 9]);
+    let (outputs, proof) = miden::prove(&program, inputs.clone(), host(&[]), ProvingOptions::with_96_bit_security(false))
+        .expect("proof program must be provable");
+    let info = ProgramInfo::from(program);
+    // layout 1: to_bytes / from_bytes; layout 2: Serializable / Deserializable
+    let b1 = proof.to_bytes();
+    let b2 = Serializable::to_bytes(&proof);
+    let layouts: [(&str, &Vec<u8>, fn(&[u8]) -> Result<ExecutionProof, vm_core::utils::DeserializationError>, fn(&ExecutionProof) -> Vec<u8>); 2] = [
+        ("to_bytes/from_bytes", &b1, ExecutionProof::from_bytes, ExecutionProof::to_bytes),
+        ("Serializable/Deserializable", &b2, <ExecutionProof as Deserializable>::read_from_bytes, |p| Serializable::to_bytes(p)),
+    ];
+    for (lname, bytes, decode, encode) in layouts {
+        let dec = match guard::catch(|| decode(bytes)) {
+            Ok(Ok(d)) => d,
+            Ok(Err(e)) => return fail(ctx, &tag, "proof", "decode_err", format!("{lname}: {e:?}"), &case),
+            Err(p) => return fail(ctx, &tag, "proof", "decode_panic", format!("{lname}: {}", guard::short_panic(&p)), &case),
+        };
+        if dec != proof {
+            return fail(ctx, &tag, "proof", "not_equal", format!("{lname}: decode(encode(proof)) != proof"), &case);
+        }
+        if encode(&dec) != **bytes {
+            return fail(ctx, &tag, "proof", "reencode_differs", format!("{lname}: bytes differ"), &case);
+        }
+        match guard::catch(|| miden::verify(info.clone(), inputs.clone(), outputs.clone(), dec)) {
+            Ok(Ok(_)) => {}
+            other => return fail(ctx, &tag, "proof", "roundtripped_proof_rejected", format!("{lname}: {other:?}"), &case),
+        }
+        st.encodings.lock().unwrap().insert((*bytes).clone());
+        st.class("proof:roundtrip_ok");
+    }
+    // the statement travels with the proof
+    let statement = guard::catch(|| {
+        Ok::<_, vm_core::utils::DeserializationError>((
+            ProgramInfo::read_from_bytes(&Serializable::to_bytes(&info))?,
+            StackInputs::read_from_bytes(&Serializable::to_bytes(&inputs))?,
+            StackOutputs::read_from_bytes(&Serializable::to_bytes(&outputs))?,
+        ))
+    });
+    let (i2, s2, o2) = match statement {
+        Ok(Ok(x)) => x,
+        other => return fail(ctx, &tag, "proof", "statement_decode_err", format!("{:?}", other.map(|r| r.map(|_| ()))), &case),
+    };
+    match guard::catch(|| miden::verify(i2, s2, o2, proof)) {
+        Ok(Ok(_)) => st.class("proof:statement_roundtrip_ok"),
+        other => fail(ctx, &tag, "proof", "roundtripped_statement_rejected", format!("{other:?}"), &case),
+    }
+}
+
+/// the set of bytes the real node decoder accepts as an opcode: a byte followed by zeros either
+/// decodes or fails for a reason other than "not an opcode"
+fn accepted_opcodes() -> BTreeSet<u8> {
+    let mut set = BTreeSet::new();
+    for b in 0..=255u8 {
+        let mut bytes = vec![b];
+        bytes.extend([0u8; 80]);
+        match guard::catch(|| Node::read_from_bytes(&bytes)) {
+            Ok(Err(e)) if format!("{e:?}").contains("could not read a valid opcode") => {}
+            _ => {
+                set.insert(b);
+            }
+        }
+    }
+    set
+}
+
+// ENTRY POINT
+// ================================================================================================
+
+enum Case {
+    Program { family: &'static str, instr: String, name: String, src: String, compile: bool },
+    Module { family: &'static str, instr: String, name: String, src: String },
+    Library(&'static str),
+    Data(&'static str, u64),
+    Proof(usize),
+}
+
+fn run_case(ctx: &Ctx, st: &Stats, c: &Case) {
+    match c {
+        Case::Program { family, instr, name, src, compile } => check_program(ctx, st, &Tag { family, instr, name }, src, *compile),
+        Case::Module { family, instr, name, src } => check_module(ctx, st, &Tag { family, instr, name }, src),
+        Case::Library(w) => check_library(ctx, st, w),
+        Case::Data(ty, p) => check_data(ctx, st, ty, *p),
+        Case::Proof(w) => check_proof(ctx, st, *w),
+    }
+}
+
+pub fn run(ctx: &Ctx, replay: Option<&Value>) -> i32 {
+    let st = Stats {
+        classes: Mutex::new(BTreeMap::new()),
+        opcodes: Mutex::new(BTreeSet::new()),
+        arms: Mutex::new(BTreeSet::new()),
+        encodings: Mutex::new(BTreeSet::new()),
+        nested_locations_lost: Mutex::new(0),
+    };
+    if let Some(case) = replay {
+        let s = |k: &str| case[k].as_str().unwrap_or("").to_string();
+        let leak = |x: String| -> &'static str { Box::leak(x.into_boxed_str()) };
+        let c = match case["kind"].as_str().unwrap_or("") {
+            "program" => Case::Program { family: leak(s("family")), instr: s("instr"), name: s("name"), src: s("src"), compile: case["compile"].as_bool().unwrap_or(true) },
+            "module" => Case::Module { family: leak(s("family")), instr: s("instr"), name: s("name"), src: s("src") },
+            "library" => Case::Library(leak(s("which"))),
+            "data" => Case::Data(leak(s("type")), case["param"].as_u64().unwrap()),
+            "proof" => Case::Proof(case["which"].as_u64().unwrap() as usize),
+            k => panic!("unknown replay case kind {k}"),
+        };
+        if let Case::Program { src, .. } | Case::Module { src, .. } = &c {
+            println!("source:\n{src}");
+        }
+        run_case(ctx, &st, &c);
+        println!("observed outcome classes: {:?}", st.classes.lock().unwrap());
+        println!("expected: decode(encode(x)) == x, identical re-encoding, and the same MAST root / kernel / code-block table / execution outcome after recompiling the round-tripped object");
+        return ctx.finish("exploration", json!({}), &[]);
+    }
+
+    let mut cases: Vec<Case> = vec![];
+    let spellings = instruction_spellings();
+    for i in &spellings {
+        cases.push(Case::Program { family: "instruction", instr: i.clone(), name: String::new(), src: instr_program(i), compile: true });
+        cases.push(Case::Module { family: "instruction", instr: i.clone(), name: String::new(), src: instr_module(i) });
+    }
+    let cps = container_programs();
+    let cms = container_modules();
+    for (name, src, compile) in &cps {
+        cases.push(Case::Program { family: "container", instr: String::new(), name: name.clone(), src: src.clone(), compile: *compile });
+    }
+    for (name, src) in &cms {
+        cases.push(Case::Module { family: "container", instr: String::new(), name: name.clone(), src: src.clone() });
+    }
+    for w in ["small", "small+locations", "stdlib"] {
+        cases.push(Case::Library(w));
+    }
+    for n in [0u64, 1, 3, 255] {
+        cases.push(Case::Data("Kernel", n));
+        cases.push(Case::Data("ProgramInfo", n));
+    }
+    for n in [0u64, 1, 16, 17, 40] {
+        cases.push(Case::Data("StackInputs", n));
+        cases.push(Case::Data("StackOutputs", n));
+    }
+    cases.push(Case::Proof(0));
+    let mut pair_alphabet = 0usize;
+    if ctx.tier == Tier::Thorough {
+        cases.push(Case::Proof(1));
+        // every ordered pair of instruction encodings (one representative spelling per opcode byte)
+        // in one procedure body: framing errors between neighbouring nodes (AST round trip only)
+        let mut reps: BTreeMap<u8, String> = BTreeMap::new();
+        for i in &spellings {
+            if let Ok(Ok(ast)) = guard::catch(|| ProgramAst::parse(&instr_program(i))) {
+                if let Some(b) = ast.procedures().get(1).and_then(|p| p.body.nodes().first()).and_then(|n| Serializable::to_bytes(n).first().copied()) {
+                    reps.entry(b).or_insert_with(|| i.clone());
+                }
+            }
+        }
+        pair_alphabet = reps.len();
+        for a in reps.values() {
+            for b in reps.values() {
+                let both = format!("{a} {b}");
+                cases.push(Case::Program { family: "instruction-pair", instr: both.clone(), name: String::new(), src: instr_program(&both), compile: false });
+            }
+        }
+    }
+
+    cases.par_iter().for_each(|c| run_case(ctx, &st, c));
+
+    // measured coverage of the instruction encodings
+    let accepted = accepted_opcodes();
+    let seen = st.opcodes.lock().unwrap().clone();
+    let missing: Vec<u8> = accepted.difference(&seen).copied().collect();
+    let unexpected: Vec<u8> = seen.difference(&accepted).copied().collect();
+    let arms = st.arms.lock().unwrap().clone();
+    let arms_missing: Vec<&str> = PARSER_ARMS.iter().filter(|a| !arms.contains(**a)).copied().collect();
+    assert!(
+        missing.is_empty() && unexpected.is_empty(),
+        "C10 instruction coverage is incomplete: opcode bytes accepted by the decoder but never produced: {missing:?}; produced but not accepted: {unexpected:?}"
+    );
+    assert!(arms_missing.is_empty(), "C10: parser arms never exercised by a parsable spelling: {arms_missing:?}");
+
+    for c in cases.iter().step_by(cases.len() / 7 + 1) {
+        match c {
+            Case::Program { src, name, instr, .. } => ctx.sample(json!({"kind": "program", "name": name, "instr": instr, "src": src})),
+            Case::Module { src, name, instr, .. } => ctx.sample(json!({"kind": "module", "name": name, "instr": instr, "src": src})),
+            Case::Library(w) => ctx.sample(json!({"kind": "library", "which": w})),
+            Case::Data(t, p) => ctx.sample(json!({"kind": "data", "type": t, "param": p})),
+            Case::Proof(w) => ctx.sample(json!({"kind": "proof", "program": PROOF_PROGRAMS[*w].1})),
+        }
+    }
+    let classes = st.classes.lock().unwrap().clone();
+    let evaluations: u64 = classes.iter().filter(|(k, _)| k.ends_with("roundtrip_ok")).map(|(_, v)| *v).sum::<u64>() + ctx.num_failures() as u64;
+    let cov = json!({
+        "evaluations": evaluations,
+        "distinct_nontrivial": st.encodings.lock().unwrap().len(),
+        "rule": "evaluation = one (object, serialisation mode) pair taken through encode → decode → compare → re-encode → recompile/execute; distinct_nontrivial = number of distinct byte encodings (mode: with imports) among the objects that parse / can be built",
+        "exhaustive": true,
+        "cases": cases.len(),
+        "instruction_spellings_generated": spellings.len(),
+        "parser_arms_listed": PARSER_ARMS.len(),
+        "parser_arms_covered": arms.len(),
+        "opcode_bytes_accepted_by_decoder": accepted.len(),
+        "opcode_bytes_seen_in_serialised_nodes": seen.len(),
+        "opcode_bytes_missing": missing,
+        "instruction_pair_alphabet": pair_alphabet,
+        "instruction_pairs": pair_alphabet * pair_alphabet,
+        "container_programs": cps.len(),
+        "container_modules": cms.len(),
+        "outcome_classes": classes,
+        "nested_bodies_whose_locations_are_not_serialised": *st.nested_locations_lost.lock().unwrap(),
+        "serialisation_modes": ["with imports", "without imports"],
+        "bounds": "boundary immediates per instruction family (see instruction_spellings in c10.rs); nestings of 4 block kinds to depth 3; 0..3 procedures x locals {0,1,255,65535}; repeat {1,2,65536,2^32-1} (compiled up to 65536); thorough: all ordered pairs of one spelling per opcode byte in one body (not compiled); kernel sizes {0,1,3,255}; stack depths {0,1,16,17,40}",
+    });
+    ctx.finish("exploration", cov, &[
+        "equality is the types' PartialEq: for code bodies it ignores source locations when one side has none, and locations of nested blocks are never serialised (counted, not judged)",
+        "a spelling the parser rejects is outside the space (counted as not_parsable)",
+        "programs are compiled with the stdlib and a one-procedure kernel on a fresh assembler per compilation and executed on one fixed input",
+    ])
 }
